@@ -607,6 +607,6 @@ func handleUnsets(req thrift.RequiresBitmap, desc *thrift.StructDescriptor, p *t
 		if e := p.WriteFieldBegin(f.Name(), f.Type().Type(), (f.ID())); e != nil {
 			return e
 		}
-		return p.WriteEmpty(f.Type())
+		return p.WriteDefaultOrEmpty(f)
 	})
 }
